@@ -68,7 +68,7 @@ TRUSTED = {
     '*': _BASE,
     'C02': _BASE + ["the grammar of Rrss/Spec/Grammar.lean (stratified expression syntax, all 18 statement kinds incl. the four poetic forms, nested blocks, programs, every way of ending the input) is what 'the same program' means: the theorems quantify over ITS syntax trees x every choice of keyword alias/optional word/token template (positions, snapshots), not over character strings: that lexing produces these tokens is C12's theorems plus the correspondence run",
                     "hypotheses on token templates only: Choices.Sane (position snapshots readable, true of lexed tokens by C12) and Fits (the four places where the parser reads the SPELLING of a token the grammar leaves free: the token after a bare `break` is not `it`; the line break after a poetic literal is not spelled like a word; the hyphen of `x is -5` is spelled `-`; the text of `x says ...` is the source slice between `says` and the line break); Fits is True for programs without these constructs",
-                    "text level (Thm/C02Text, C02TextPoetic): SpellLaws / PunctLower (ASCII letters, digits, blanks and punctuation classify and lower-case as expected: proved for the generated tables by kernel evaluation), hdot (f64 FromStr rejects `.`), hnum (every number piece parses), hkw (the keyword table is the promised one: decided on the regenerated table), hlen (text shorter than 4 GiB), hv (the visible pieces stand for the program's tokens); covered: ASCII letters and blanks, all statement kinds except that poetic STRINGS are `_partial` (the stored text being the source slice is assumed for all template choices)"],
+                    "text level (Thm/C02Text, C02TextPoetic): SpellLaws / PunctLower (ASCII letters, digits, blanks and punctuation classify and lower-case as expected: proved for the generated tables by kernel evaluation), hdot (f64 FromStr rejects `.`), hnum (every number piece parses), hkw (the keyword table is the promised one: decided on the regenerated table), hlen (text shorter than 4 GiB), hv (the visible pieces stand for the program's tokens); covered: ASCII letters and blanks, all statement kinds; for poetic strings the stored text being the source slice is a hypothesis on the given spelling (hstr), not yet derived from the pieces"],
     'C03': _BASE + ["the model's own f64 Display/FromStr (Rrss/F64.lean, exact big-Nat algorithms) agree with Rust's: validated on every run (boundaries + random bit patterns)"],
     'C11': _BASE + [_NUM + 'mul_nat, add_nat (exact integer arithmetic up to 2^53), add_negzero (-0 + a = a)'],
     'C12': _BASE + [_CHR + "hnl (a line feed is whitespace)", "hkw: no keyword-table entry maps to newline/number/string/comment (decided on the regenerated table)"],
